@@ -1,6 +1,8 @@
 namespace LruM
 
-/-! Sketch (design round): executable model of `lru_disk_cache::LruDiskCache` (as written, defects included). -/
+/-! Executable model of `lru_disk_cache::LruDiskCache` after the `fix:` commits for F-C07-a (no panic on an empty
+    index: `make_space` refuses) and F-C07-b (an overwritten key is un-indexed before space is made).
+    F-C07-c (reservations of dropped / failed entries are never released) is modelled as it is in the code. -/
 
 abbrev Key := Nat
 
@@ -46,13 +48,13 @@ def lruInsert (c : Lru) (k : Key) (n : Nat) : Lru :=
   let es := eraseKey c.entries k ++ [(k, n)]
   { c with entries := lruInsertFuel (es.length) c.cap es }
 
-/-- `make_space(size)` with fuel = number of index entries + 1 -/
+/-- `make_space(size)` with fuel = number of index entries + 1 (the fuel never runs out: each round removes an entry) -/
 def makeSpaceFuel : Nat → Lru → Nat → Lru × Res
-  | 0, c, _ => ({ c with poisoned := true }, .panic)
+  | 0, c, _ => (c, .tooLarge)
   | f + 1, c, n =>
     if c.size + n > c.cap then
       match c.entries with
-      | [] => ({ c with poisoned := true }, .panic)          -- expect("Unexpectedly empty cache!")
+      | [] => (c, .tooLarge)          -- nothing left to evict: refuse (was: expect("Unexpectedly empty cache!"))
       | (k, _) :: rest => makeSpaceFuel f { c with entries := rest, files := eraseKey c.files k } n
     else (c, .ok)
 
@@ -67,8 +69,11 @@ def addFile (c : Lru) (k : Key) (n : Nat) : Lru × Res :=
 /-- `insert_bytes(key, bytes)` with `bytes.len() = n` -/
 def insertBytes (c : Lru) (k : Key) (n : Nat) : Lru × Res :=
   if n > c.cap then (c, .tooLarge) else
-  let c1 := { c with files := eraseKey c.files k ++ [(k, n)] }   -- File::create + write_all
-  c1.addFile k n
+  -- File::create + write_all, then the stale index entry of `k` is dropped (fix of F-C07-b)
+  let c1 := { c with files := eraseKey c.files k ++ [(k, n)], entries := eraseKey c.entries k }
+  match c1.addFile k n with
+  | (c2, .ok) => (c2, .ok)
+  | (c2, r) => ({ c2 with files := eraseKey c2.files k }, r)     -- the file just created is removed again
 
 /-- `prepare_add(key, size)`; the handle is returned through `nextHandle - 1` -/
 def prepareAdd (c : Lru) (k : Key) (n : Nat) : Lru × Res :=
